@@ -59,3 +59,37 @@ Qed.
 Lemma info_prints_by_default : prints default_level Info = true /\ prints default_level Error = true
   /\ prints default_level Warn = false /\ prints default_level Debug = false /\ prints default_level Trace = false.
 Proof. vm_compute. repeat split. Qed.
+
+(* ---- one gate, fail-closed ---- *)
+
+Lemma gate_fail_closed v : gate v = true <-> v = EVTrue.
+Proof. destruct v; cbn; split; congruence. Qed.
+
+(* a site's line depends on the environment variable only through [gate]: two processes whose
+   settings the station's rule treats alike print the same line at every site *)
+Lemma render_args_one_gate ev1 ev2 :
+  gate (env_value ev1) = gate (env_value ev2) ->
+  (forall i, err_of ev1 i = err_of ev2 i) -> (forall i, digest_of ev1 i = digest_of ev2 i) ->
+  (forall i, const_of ev1 i = const_of ev2 i) ->
+  forall l i, render_args ev1 i l = render_args ev2 i l.
+Proof.
+  intros G E D C. induction l as [|a l IH]; intros i; [reflexivity|].
+  cbn [render_args]. rewrite IH. f_equal.
+  destruct a; cbn [render_arg]; unfold log_client_ip; rewrite ?E, ?D, ?C, ?G; reflexivity.
+Qed.
+
+Lemma output_one_gate cfg s ev1 ev2 :
+  gate (env_value ev1) = gate (env_value ev2) ->
+  (forall i, err_of ev1 i = err_of ev2 i) -> (forall i, digest_of ev1 i = digest_of ev2 i) ->
+  (forall i, const_of ev1 i = const_of ev2 i) ->
+  output cfg s ev1 = output cfg s ev2.
+Proof. intros. unfold output. destruct (prints cfg (s_level s)); [|reflexivity]. now apply render_args_one_gate. Qed.
+
+(* with any setting that does not enable logging, a safe site prints no address *)
+Lemma disabled_means_every_non_true_value s ev :
+  safe_site s = true -> env_value ev <> EVTrue -> has_addr (output default_level s ev) = false.
+Proof.
+  intros Hs Hv. apply safe_site_no_address; [exact Hs|].
+  unfold log_client_ip. destruct (gate (env_value ev)) eqn:G; [|reflexivity].
+  apply gate_fail_closed in G. contradiction.
+Qed.
